@@ -1084,6 +1084,15 @@ class Data(Container, NetCDFHDF5, Files, core.Data):
                 # part of 'value'.
                 indices2 = []
                 ndim_difference = array.ndim - value.ndim
+                if ndim_difference > 0:
+                    # Give 'value' the missing leading size 1
+                    # dimensions, so that every list index of 'array'
+                    # gets its own sequence of 'value' indices.
+                    value = value.reshape(
+                        (1,) * ndim_difference + value.shape
+                    )
+                    ndim_difference = 0
+
                 for i2, size in enumerate(value.shape):
                     i1 = i2 + ndim_difference
                     if i1 not in axes_with_list_indices:
